@@ -1,12 +1,13 @@
 #!/bin/bash
 # Re-validation of the seeded changes (seeded/S*/): each patch is applied to a scratch copy of /repo and the check of
-# the property it breaks must report a VIOLATION within the quick budget (base seed 1). usage: seeded.sh [filter-regex]
+# the property it breaks (or, where meta.json says caught_by, the check that catches it instead) must report a VIOLATION
+# within the quick budget (base seed 1). usage: seeded.sh [filter-regex]
 cd "$(dirname "$0")/.."
 pass=0; fail=0
 for d in seeded/S*/; do
   id=$(basename "$d")
   if [ -n "${1:-}" ] && ! echo "$id" | grep -Eq "$1"; then continue; fi
-  prop=$(python3 -c "import json,sys; print(json.load(open('$d/meta.json'))['breaks_property'])")
+  prop=$(python3 -c "import json,sys; m=json.load(open('$d/meta.json')); print(m.get('caught_by', m['breaks_property']))")
   out=$(scripts/runmutant.sh "$d/patch.diff" "$prop" 2>&1); code=$?
   if [ $code -eq 1 ]; then pass=$((pass+1)); echo "CAUGHT  $id $prop :: $(echo "$out" | sed -n 2p | cut -c1-140)";
   else fail=$((fail+1)); echo "MISSED($code) $id $prop :: $(echo "$out" | head -1 | cut -c1-200)"; fi
